@@ -18,6 +18,8 @@ CHECKS={
         "sequentially consistent interleavings at access granularity; weak-memory outcomes and thread-local address reuse are not explored; freed boxes are quarantined so a use after destroy is observed","DESIGN.md §5 C05"),
  'C06':("exploration","seeded search over evaluation histories of 5-400 steps on one engine (define / define function reading and calling earlier globals / redefine / set! / multi-form programs / failing programs at compile time and at run time with definitions before and after the failing form / host register_value + update_value / collections) with the global-slot recycling threshold randomised (1..100) so recycling happens inside short histories, JIT on/off; after every step every live function is called and every live variable read and compared with a binding model",
         "module requires are exercised by C14; references inside one evaluation follow the generator's ordering rule (DESIGN.md §5 C06)","DESIGN.md §5 C06"),
+ 'C07':("fault_enumeration","enumeration of fault points over a corpus of 26 programs (plain code, argument position, let bodies, map/fold/transduce/sort/for-each callbacks, dynamic-wind, handlers, escaping and re-entered continuations, apply, macro use, deep recursion, mutable state, parameterize, host calls in each of these contexts) in both tiers: an interrupt raised at every dispatch step, a host-function error at every host call, a compile-time and a run-time failing form at every form position; each run continues with 0-3 further faulted evaluations on the same engine; after every evaluation: it returned (panic/crash = violation), stacks empty, probe program and earlier definitions and mutable state intact, clean re-run gives the program's value",
+        "decides the second sentence of C07 and the fault-history part of its quantifier; arbitrary source text and arbitrary built-in argument tuples are pure functions of the input and are not decided here (DESIGN.md §5 C07)","DESIGN.md §5 C07"),
  'C04':("exploration","seeded search over collection schedules (a full collection forced at PRNG-chosen allocations, up to every allocation, plus explicit requests) for generated programs that park the only reference to boxes / mutable vectors / mutable struct fields / assigned captured variables in one of 23 root classes, churn the allocator and read back; oracle = generator-known contents + stale-slot monitor + free-slot accounting; JIT on/off and heap growth chunk are swarm dimensions",
         "collections are forced only where the runtime itself may collect; one script thread (threaded roots are exercised in the C15/C16 runs); the marker pool's internal races are not scheduled","DESIGN.md §5 C04"),
 }
